@@ -47,6 +47,8 @@ type accountsCase struct {
 	Groups []accountsGroup `json:"groups,omitempty"`
 	RunAs  string          `json:"runas,omitempty"`
 	Pkgs   []SPkg          `json:"pkgs,omitempty"` // e2e
+	// e2e: the accounts are declared in an include:d configuration file (accounts_glue.go)
+	Include bool `json:"include,omitempty"`
 }
 
 type accountsSuite struct{}
